@@ -20,8 +20,19 @@ void * __real_calloc(size_t, size_t);
 void * __real_realloc(void *, size_t);
 void __real_free(void *);
 
+/*
+ * What realloc() does with a block that shrinks (or grows back within what it
+ * once had) is the allocator's business: AddressSanitizer's always moves it, a
+ * plain allocator usually leaves it where it is.  In "in place" mode the
+ * wrapper keeps the block, poisons the part given back and remembers how much
+ * room the block really has.
+ */
+void __asan_poison_memory_region(void const volatile *, size_t);
+void __asan_unpoison_memory_region(void const volatile *, size_t);
+static int trk_inplace;
+
 #define TRK_MAX 8192
-static struct { void * p; size_t sz; } trk[TRK_MAX];
+static struct { void * p; size_t sz; size_t cap; } trk[TRK_MAX];
 static size_t trk_n;
 static size_t trk_bytes;
 static uint64_t trk_nalloc, trk_nfree;
@@ -40,6 +51,7 @@ trk_add(void * p, size_t sz)
 	}
 	trk[trk_n].p = p;
 	trk[trk_n].sz = sz;
+	trk[trk_n].cap = sz;
 	trk_n++;
 	trk_bytes += sz;
 	trk_nalloc++;
@@ -100,7 +112,20 @@ __wrap_realloc(void * o, size_t n)
 			break;
 		}
 	}
+	if (tracked && trk_inplace && n > 0 && n <= trk[i].cap) {
+		/* The block stays where it is. */
+		__asan_unpoison_memory_region(o, trk[i].cap);
+		if (n < trk[i].cap)
+			__asan_poison_memory_region((char *)o + n, trk[i].cap - n);
+		trk_bytes = trk_bytes - trk[i].sz + n;
+		trk[i].sz = n;
+		return (o);
+	}
+	if (tracked)
+		__asan_unpoison_memory_region(o, trk[i].cap);
 	p = __real_realloc(o, n);
+	if (p == NULL && n != 0 && tracked && trk[i].sz < trk[i].cap)
+		__asan_poison_memory_region((char *)o + trk[i].sz, trk[i].cap - trk[i].sz);
 	if (p == NULL && n != 0)
 		return (NULL);		/* failed: old block untouched */
 	if (tracked) {
@@ -115,10 +140,19 @@ __wrap_realloc(void * o, size_t n)
 void
 __wrap_free(void * p)
 {
+	size_t i;
 
+	for (i = trk_n; p != NULL && i-- > 0; ) {
+		if (trk[i].p == p) {
+			__asan_unpoison_memory_region(p, trk[i].cap);
+			break;
+		}
+	}
 	trk_del(p);
 	__real_free(p);
 }
+
+void trk_set_inplace(int on) { trk_inplace = on; }
 
 void trk_reset(void) { trk_n = 0; trk_bytes = 0; trk_nalloc = trk_nfree = 0; }
 size_t trk_live_count(void) { return (trk_n); }
